@@ -88,7 +88,7 @@ func execCrash(input string) Result {
 		// it must be treated as always
 		sp.LQRows = append([]LQRow{{ID: "row-unparsable", Value: "http://[::1/x", Hops: 0}}, sp.LQRows...)
 	}
-	_, evs1, _ := runChild(sp, 50*time.Second)
+	res1, evs1, _ := runChild(sp, 50*time.Second)
 	rowsAfter1, errDB := readLQ(sp.Dir)
 	scan1 := scanWarcDirAll(filepath.Join(sp.Dir, "jobs"))
 
@@ -219,6 +219,13 @@ func execCrash(input string) Result {
 			}
 		}
 	}
+	// the operator's choice of synchronous WARC writing (no --async-warc-write) is what "finished implies captured" rests on:
+	// archive() waits for the writer only then. A crawl that writes asynchronously although the operator did not ask for it
+	// cannot keep the promise, whenever the kill falls.
+	if res1 != nil && !sp.Async && res1.Stats["async_effective"] == 1 {
+		uncaptured++
+		note(fmt.Sprintf("crash case [%s]: the operator did not pass --async-warc-write, the effective configuration writes asynchronously", input))
+	}
 	// run 2: which seeds were fetched again (arch.fetch of the seed's own URL), which rows remain
 	port2 := 0
 	if len(evs2) > 0 && evs2[0].kind == "run" && len(evs2[0].fields) >= 2 {
@@ -295,6 +302,9 @@ func genCrash(r *Rng, i int, tier string) string {
 	if r.Chance(15) {
 		s = strings.Replace(s, " retry=0", " retry=2", 1)
 		s += " mode=flaky" // transient transport failures: a stop or kill falls into the back-off between two attempts
+	}
+	if r.Chance(20) {
+		s += " flags=1" // the configuration comes from the real command line
 	}
 	if r.Chance(12) {
 		s += " tempjob=1" // --warc-temp-dir is the job directory itself
